@@ -15,17 +15,18 @@ CONSTANTS N,          \* tokencheckfailures (>= 1)
           Outcomes,   \* subset of {"ok", "err", "timeout"}
           Disabled,   \* server.disabled
           MaxSteps,   \* history bound for exhaustive exploration
-          Variant     \* "code" | "CloseStopsOnTokenError" | "NoExit" | "BelowZero" | "NoReset" | "StaleGE" | "IgnoreDisabled" | "OffByOne" | "AnyTokenOk"
+          Variant     \* "code" | "CloseStopsOnTokenError" | "NoExit" | "BelowZero" | "NoReset" | "StaleGE" | "IgnoreDisabled" | "OffByOne" | "AnyTokenOk" | "StampOnSuccessOnly"
 
 VARIABLES status,   \* healthStatus: N = fully healthy ... 0 = flagged ERROR
           halves,   \* half-intervals since the last completed check (saturates at 8)
           closed,   \* Server.Close() was called
           loop,     \* "running" | "exited"
           fails,    \* number of trailing consecutive failed checks (history abstraction, saturates at N)
+          since,    \* reference clock: half-intervals since the last completed check, whatever it found (never varied)
           hist      \* sequence of actions taken (observation only; hidden by VIEW in mc)
 
-vars == <<status, halves, closed, loop, fails, hist>>
-view == <<status, halves, closed, loop, fails>>
+vars == <<status, halves, closed, loop, fails, since, hist>>
+view == <<status, halves, closed, loop, fails, since>>
 
 Min(a, b) == IF a < b THEN a ELSE b
 
@@ -45,7 +46,7 @@ Healthy ==
 RefFailed(o) == \E t \in Tokens : o[t] # "ok"
 
 Init ==
-  /\ status = N /\ halves = 0 /\ closed = FALSE /\ loop = "running" /\ fails = 0
+  /\ status = N /\ halves = 0 /\ closed = FALSE /\ loop = "running" /\ fails = 0 /\ since = 0
   /\ hist = <<>>
 
 \* one run of healthCheck(): ping every token, update the counter, stamp the time
@@ -55,13 +56,16 @@ Check(o) ==
                ELSE IF status > 0 \/ Variant = "BelowZero" THEN status - 1
                ELSE status
   /\ fails' = IF RefFailed(o) THEN Min(N, fails + 1) ELSE 0
-  /\ halves' = 0
+  \* every completed check stamps the time, whatever it found (named deviation: only a successful one does, so the
+  \* staleness rule would measure the time since the last success and cut the hysteresis short)
+  /\ halves' = IF Variant = "StampOnSuccessOnly" /\ Failed(o) THEN halves ELSE 0
+  /\ since' = 0
   /\ hist' = Append(hist, [a |-> "Check", o |-> o, h |-> Healthy', st |-> status'])
   /\ UNCHANGED <<closed, loop>>
 
 Tick ==   \* half a check interval passes without a completed check
   /\ Len(hist) < MaxSteps
-  /\ halves' = Min(8, halves + 1)
+  /\ halves' = Min(8, halves + 1) /\ since' = Min(8, since + 1)
   /\ UNCHANGED <<status, closed, loop, fails>>
   /\ hist' = Append(hist, [a |-> "Tick", o |-> [t \in Tokens |-> "ok"], h |-> Healthy', st |-> status'])
 
@@ -71,27 +75,30 @@ Close ==
   /\ ~closed /\ Len(hist) < MaxSteps
   /\ \E tokenCloseFails \in BOOLEAN :
        closed' = (IF Variant = "CloseStopsOnTokenError" /\ tokenCloseFails THEN FALSE ELSE TRUE)
-  /\ UNCHANGED <<status, halves, loop, fails>>
+  /\ UNCHANGED <<status, halves, loop, fails, since>>
   /\ hist' = Append(hist, [a |-> "Close", o |-> [t \in Tokens |-> "ok"], h |-> Healthy', st |-> status'])
 
 LoopExit ==   \* `case <-s.Closed: return'
   /\ closed /\ loop = "running" /\ Variant # "NoExit"
   /\ loop' = "exited"
-  /\ UNCHANGED <<status, halves, closed, fails, hist>>
+  /\ UNCHANGED <<status, halves, closed, fails, since, hist>>
 
 Next == (\E o \in [Tokens -> Outcomes] : Check(o)) \/ Tick \/ Close \/ LoopExit
 
 Spec == Init /\ [][Next]_vars /\ WF_vars(LoopExit)
 
 -----------------------------------------------------------------------------
-TypeOK == status \in 0..N /\ halves \in 0..8 /\ fails \in 0..N /\ loop \in {"running", "exited"}
+TypeOK == status \in 0..N /\ halves \in 0..8 /\ since \in 0..8 /\ fails \in 0..N /\ loop \in {"running", "exited"}
 
 \* the counter is a function of the trailing failures
 Counter == status = N - fails
 
 \* the property as stated: unhealthy exactly when disabled, or no check completed for more than
 \* three intervals, or the most recent N consecutive checks all failed
-HealthyIff == Healthy <=> (~Disabled /\ halves <= 6 /\ fails < N)
+HealthyIff == Healthy <=> (~Disabled /\ since <= 6 /\ fails < N)
+
+\* the staleness clock is the time since the last completed check
+Clock == halves = since
 
 \* one successful check restores health (unless disabled)
 OneSuccessRestores ==
